@@ -147,9 +147,18 @@ class Ser:
                 raise Unsupported("series filtered by a foreign or non-boolean mask")
             keep = [n for n, v in enumerate(key.values) if v]
             return Ser([self.values[n] for n in keep], [self.index[n] for n in keep])
+        if isinstance(key, list):
+            # a list of labels: the sub-series in the order of the list (a missing label raises, as in pandas)
+            for k in key:
+                if k not in self.index:
+                    raise KeyError(k)
+            return Ser([self.values[self.index.index(k)] for k in key], list(key))
         if key in self.index:
             return self.values[self.index.index(key)]
         raise KeyError(key)
+
+    def rename(self, *a, **k):
+        return Ser(list(self.values), list(self.index))
 
     def isna(self):
         return Ser([_is_nan(a) or a is None for a in self.values], self.index)
